@@ -3092,6 +3092,17 @@ class Set(Collection):
                 if not is_reverse_call:
                     for undo_func in reversed(undo_funcs): undo_func()
                 raise
+        if is_reverse_call:
+            # the caller (a delete of obj) may fail later and undo the reverse side: restore this side as well
+            old_items, old_count = set(setdata), setdata.count
+            old_added, old_removed = setdata.added and set(setdata.added), setdata.removed and set(setdata.removed)
+            was_modified_earlier = obj in cache.modified_collections[attr]
+            def undo_func():
+                setdata.clear()
+                setdata.update(old_items)
+                setdata.count, setdata.added, setdata.removed = old_count, old_added, old_removed
+                if not was_modified_earlier: cache.modified_collections[attr].discard(obj)
+            undo_funcs.append(undo_func)
         setdata.clear()
         setdata |= new_items
         if setdata.count is not None: setdata.count = len(new_items)
